@@ -33,7 +33,7 @@ def run(ctx):
             # `name:` — a colon is an identifier character; the symbol of an identifier is that of its name without the colons at its ends
             for name in ('a', 'x', 'name', '$', 'name:', 'a:'):
                 src = t.replace('%s', name)
-                for st in progsuite.STORES + ['simpleclone']:      # simpleclone: executed on a clone of the built SimpleGarnishData
+                for st in progsuite.STORES + ['simpleclone', 'simpleclone2', 'simpleclone3', 'simpleclone4', 'simpleabandon', 'basicabandon']:      # executed on a clone of the built SimpleGarnishData made with each of the four public clone helpers
                     for host in progsuite.HOSTS:
                         for inp in ('-', ins[3], '(x 3)', ins[-1], proggen.INPUTS[-1]):
                             cid = str(len(cases))
@@ -54,9 +54,14 @@ def run(ctx):
     for key, d in by_key.items():
         if 'simple' in d and 'basic' in d:
             ps, pb = progsuite.parse_impl(impl.get(d['simple'][1])), progsuite.parse_impl(impl.get(d['basic'][1]))
-            pc_ = progsuite.parse_impl(impl.get(d['simpleclone'][1])) if 'simpleclone' in d else None
-            if pc_ is not None and ps['kind'] == 'ok' and (pc_['kind'] != 'ok' or progsuite.canon(pc_['value']) != progsuite.canon(ps['value']) or progsuite.canon(pc_['log']) != progsuite.canon(ps['log'])):
-                ctx.fail('oracle', d['simpleclone'], impl=impl.get(d['simpleclone'][1]), model=None, expect=impl.get(d['simple'][1]), note=f'a clone of the built data object does not behave like the original (value or host calls) on {vlib.unesc(key[0])!r}')
+            for ab_, pl_ in (('simpleabandon', ps), ('basicabandon', pb)):
+                pa_ = progsuite.parse_impl(impl.get(d[ab_][1])) if ab_ in d else None
+                if pa_ is not None and pl_['kind'] == 'ok' and (pa_['kind'] != 'ok' or progsuite.canon(pa_['value']) != progsuite.canon(pl_['value']) or progsuite.canon(pa_['log']) != progsuite.canon(pl_['log'])):
+                    ctx.fail('oracle', d[ab_], impl=impl.get(d[ab_][1]), model=None, expect=impl.get(d[ab_[:-7]][1]), note=f'after a list was started and never ended on the data object, the input value built next answers identifier look-ups differently (value or host calls) on {vlib.unesc(key[0])!r}')
+            for cl in ('simpleclone', 'simpleclone2', 'simpleclone3', 'simpleclone4'):
+                pc_ = progsuite.parse_impl(impl.get(d[cl][1])) if cl in d else None
+                if pc_ is not None and ps['kind'] == 'ok' and (pc_['kind'] != 'ok' or progsuite.canon(pc_['value']) != progsuite.canon(ps['value']) or progsuite.canon(pc_['log']) != progsuite.canon(ps['log'])):
+                    ctx.fail('oracle', d[cl], impl=impl.get(d[cl][1]), model=None, expect=impl.get(d['simple'][1]), note=f'a clone of the built data object ({cl}) does not behave like the original (value or host calls) on {vlib.unesc(key[0])!r}')
             if ps['kind'] == 'ok' and pb['kind'] == 'ok':
                 # External application is a BasicGarnishData feature (apply callback): skip programs whose traces contain it
                 if 'apply(' in (ps.get('log') or '') + (pb.get('log') or '') or '(x ' in key[1]:
